@@ -108,6 +108,9 @@ impl GFb127 {
 
     #[inline(always)]
     pub fn set_cond(&mut self, a: &Self, ctl: u32) {
+        // Barrier: prevent the compiler from turning the masking below
+        // into a conditional jump on the (possibly secret) control word.
+        let ctl = core::hint::black_box(ctl);
         unsafe {
             let cw = _mm_set1_epi32(ctl as i32);
             self.0 = _mm_blendv_epi8(self.0, a.0, cw);
@@ -123,6 +126,9 @@ impl GFb127 {
 
     #[inline(always)]
     pub fn cswap(a: &mut Self, b: &mut Self, ctl: u32) {
+        // Barrier: prevent the compiler from turning the masking below
+        // into a conditional jump on the (possibly secret) control word.
+        let ctl = core::hint::black_box(ctl);
         unsafe {
             let xa = a.0;
             let xb = b.0;
